@@ -194,6 +194,8 @@ pub enum IdSpec {
     U16(u16),
     /// Identifier::derive(bytes)
     Derived(String),
+    /// the identifier whose scalar is the named boundary scalar (`boundary_scalar`), e.g. `order-1`
+    Scalar(&'static str),
 }
 
 impl IdSpec {
@@ -201,18 +203,18 @@ impl IdSpec {
         match self {
             IdSpec::U16(n) => json!(n),
             IdSpec::Derived(s) => json!(format!("derive:{s}")),
+            IdSpec::Scalar(s) => json!(format!("scalar:{s}")),
         }
     }
     pub fn make<C: Suite>(&self) -> Result<Id<C>, Stop> {
         match self {
             IdSpec::U16(n) => need(Id::<C>::try_from(*n), "Identifier::try_from(u16)"),
             IdSpec::Derived(s) => need(Id::<C>::derive(s.as_bytes()), "Identifier::derive"),
-        }
-    }
-    pub fn rust<C: Suite>(&self) -> String {
-        match self {
-            IdSpec::U16(n) => format!("Identifier::try_from({n}u16).unwrap()"),
-            IdSpec::Derived(s) => format!("Identifier::derive(b\"{s}\").unwrap()"),
+            // built from the scalar itself (not through a decoder: the decoders are the subject of C12/C13)
+            IdSpec::Scalar(s) => match boundary_scalar::<C>(s) {
+                Some(x) => need(Id::<C>::new(x), "Identifier::new(non-zero scalar)"),
+                None => skip("unknown boundary scalar"),
+            },
         }
     }
 }
@@ -236,7 +238,7 @@ pub struct Params {
     pub message: Vec<u8>,
 }
 
-pub const ID_SCHEMES: [&str; 8] = [
+pub const ID_SCHEMES: [&str; 9] = [
     "default",
     "shifted",
     "sparse-ascending",
@@ -245,7 +247,11 @@ pub const ID_SCHEMES: [&str; 8] = [
     "large-u16",
     "derived",
     "mixed",
+    "boundary-scalars",
 ];
+
+/// Message lengths around the block sizes of the hash functions and of the encodings.
+pub const EDGE_MESSAGE_LENGTHS: [usize; 10] = [31, 32, 33, 63, 64, 65, 127, 128, 129, 1000];
 
 impl Params {
     pub fn generate(rng: &mut TestRng) -> Params {
@@ -284,6 +290,10 @@ impl Params {
             3 => rng.bytes(1),
             4..=5 => {
                 let len = rng.range(1000, 5000);
+                rng.bytes(len)
+            }
+            6..=9 => {
+                let len = EDGE_MESSAGE_LENGTHS[rng.below(EDGE_MESSAGE_LENGTHS.len())];
                 rng.bytes(len)
             }
             _ => {
@@ -359,6 +369,25 @@ pub fn gen_ids(rng: &mut TestRng, scheme: &str, n: usize) -> Vec<IdSpec> {
             let tag = rng.below(100000);
             (0..n).map(|i| IdSpec::Derived(format!("participant-{tag}-{i}"))).collect()
         }
+        "boundary-scalars" => {
+            // identifiers from the edges of the scalar range (order-1, order-2, 2^top, ...), mixed with small numbers;
+            // at least one of them lies in the top sliver [2^top, order)
+            let mut names: Vec<&'static str> = BOUNDARY_IDENTIFIERS.to_vec();
+            rng.shuffle(&mut names);
+            let sliver = TOP_SLIVER[rng.below(TOP_SLIVER.len())];
+            names.retain(|x| *x != sliver);
+            let mut v: Vec<IdSpec> = vec![IdSpec::Scalar(sliver)];
+            let small = distinct_u16(rng, 3, 60);
+            for k in 1..n {
+                match (names.get(k), small.get(k)) {
+                    (Some(name), _) if rng.chance(65) => v.push(IdSpec::Scalar(name)),
+                    (_, Some(x)) => v.push(IdSpec::U16(*x)),
+                    _ => {}
+                }
+            }
+            rng.shuffle(&mut v);
+            v
+        }
         _ => {
             // mixed: small numbers, big numbers and derived names in arbitrary order
             let tag = rng.below(100000);
@@ -433,6 +462,100 @@ pub fn random_nonzero_scalar<C: Suite>(rng: &mut TestRng) -> Sc<C> {
         let s = <Fd<C> as Field>::random(rng);
         if s != zero::<C>() {
             return s;
+        }
+    }
+}
+
+// ------------------------------------------------------------------------------------------------
+// boundary scalars: the edges of the scalar range, built arithmetically through the public Field trait.
+// `order` is the group order l, `top` the index of the highest set bit of l-1 (so 2^top <= l-1 < 2^(top+1)):
+// ed25519/ristretto255 252, ed448 445, p256/secp256k1 255.  Random values hit [2^top, l) of ed25519 with probability 2^-125.
+
+/// every name `boundary_scalar` understands
+pub const BOUNDARY_NAMES: [&str; 24] = [
+    "0", "1", "2", "3", "order-1", "order-2", "order-3", "2^top", "2^top+1", "2^top-1", "2^top-2", "2^(top-1)", "2^(top-1)-1",
+    "2^(top-1)+1", "(order+1)/2", "(order-1)/2", "2^8", "2^16-1", "2^64", "2^64-1", "2^128", "2^128-1", "2^(top+1) mod order",
+    "(order-1)/2+2^(top-1)",
+];
+/// the non-zero ones that do not collide with the small numbers 3..60 used next to them as identifiers
+pub const BOUNDARY_IDENTIFIERS: [&str; 21] = [
+    "1", "2", "order-1", "order-2", "order-3", "2^top", "2^top+1", "2^top-1", "2^top-2", "2^(top-1)", "2^(top-1)-1", "2^(top-1)+1",
+    "(order+1)/2", "(order-1)/2", "2^8", "2^16-1", "2^64", "2^64-1", "2^128", "2^128-1", "2^(top+1) mod order",
+];
+/// members of [2^top, order) for every suite
+pub const TOP_SLIVER: [&str; 5] = ["order-1", "order-2", "order-3", "2^top", "2^top+1"];
+
+/// index of the highest set bit of order-1
+pub fn top_bit<C: Suite>() -> usize {
+    let mut b = scalar_bytes::<C>(&(zero::<C>() - one::<C>()));
+    if scalar_bytes::<C>(&one::<C>()).first() == Some(&1) {
+        // little-endian suite
+        b.reverse();
+    }
+    for (i, byte) in b.iter().enumerate() {
+        if *byte != 0 {
+            return (b.len() - 1 - i) * 8 + (7 - byte.leading_zeros() as usize);
+        }
+    }
+    0
+}
+
+/// 2^k mod order by k doublings
+pub fn pow2<C: Suite>(k: usize) -> Sc<C> {
+    let mut x = one::<C>();
+    for _ in 0..k {
+        x = x + x;
+    }
+    x
+}
+
+pub fn boundary_scalar<C: Suite>(name: &str) -> Option<Sc<C>> {
+    let (z, o) = (zero::<C>(), one::<C>());
+    let two = o + o;
+    let top = top_bit::<C>();
+    let half_up = <Fd<C> as Field>::invert(&two).ok()?; // (order+1)/2
+    Some(match name {
+        "0" => z,
+        "1" => o,
+        "2" => two,
+        "3" => two + o,
+        "order-1" => z - o,
+        "order-2" => z - two,
+        "order-3" => z - two - o,
+        "2^top" => pow2::<C>(top),
+        "2^top+1" => pow2::<C>(top) + o,
+        "2^top-1" => pow2::<C>(top) - o,
+        "2^top-2" => pow2::<C>(top) - two,
+        "2^(top-1)" => pow2::<C>(top - 1),
+        "2^(top-1)-1" => pow2::<C>(top - 1) - o,
+        "2^(top-1)+1" => pow2::<C>(top - 1) + o,
+        "(order+1)/2" => half_up,
+        "(order-1)/2" => half_up - o,
+        "2^8" => pow2::<C>(8),
+        "2^16-1" => pow2::<C>(16) - o,
+        "2^64" => pow2::<C>(64),
+        "2^64-1" => pow2::<C>(64) - o,
+        "2^128" => pow2::<C>(128),
+        "2^128-1" => pow2::<C>(128) - o,
+        "2^(top+1) mod order" => pow2::<C>(top + 1),
+        "(order-1)/2+2^(top-1)" => half_up - o + pow2::<C>(top - 1),
+        _ => return None,
+    })
+}
+
+/// all boundary scalars with their names
+pub fn boundary_scalars<C: Suite>() -> Vec<(&'static str, Sc<C>)> {
+    BOUNDARY_NAMES.iter().filter_map(|n| boundary_scalar::<C>(n).map(|s| (*n, s))).collect()
+}
+
+/// a random boundary scalar (non-zero if asked)
+pub fn pick_boundary<C: Suite>(rng: &mut TestRng, nonzero: bool) -> (&'static str, Sc<C>) {
+    loop {
+        let name = BOUNDARY_NAMES[rng.below(BOUNDARY_NAMES.len())];
+        if let Some(s) = boundary_scalar::<C>(name) {
+            if !(nonzero && s == zero::<C>()) {
+                return (name, s);
+            }
         }
     }
 }
